@@ -1,6 +1,7 @@
 import KoordVerif.Model.C11Decode
 import KoordVerif.Model.C11Rounds
 import KoordVerif.Model.C11Metric
+import KoordVerif.Model.C11Containers
 import KoordVerif.Generated.C11
 /-
 Tie lemmas for C11: constants, parse calls, cache guards and loop guard order of /repo's current source
@@ -92,5 +93,13 @@ theorem tie_last_aggregate :
 theorem tie_filter_no_metrics :
     KoordVerif.Generated.C11.prioBuildersSkippingOnMetricError = 2 ∧
     KoordVerif.Generated.C11.collectAllPodMetricsSkipsEmptyResult = true := by decide
+
+/-- `GetRequestTypeAndValueFromPod`: one loop over `Spec.Containers`, one over `Spec.InitContainers` whose whole body
+    is guarded by `IsSidecarContainer`, each clamping a request `<= 0` to 0 (`ctrSum`: kinds 0 and 2, `clamp0`). -/
+theorem tie_request_loops :
+    KoordVerif.Generated.C11.requestLoopsContainersOnceInitOnce = true ∧
+    KoordVerif.Generated.C11.requestInitLoopSidecarOnly = true ∧
+    KoordVerif.Generated.C11.requestClampsNonPositive = 2 ∧
+    ctrSum Ctr.mid [⟨0, 3, 0⟩, ⟨1, 5, 0⟩, ⟨2, 7, 0⟩, ⟨0, -1, 0⟩] = 10 := by decide
 
 end KoordVerif.C11
